@@ -7,7 +7,7 @@
 (* (TLC covers the same policy, with contents, within small bounds; this   *)
 (* removes the bound for the integer part.)                                *)
 (***************************************************************************)
-EXTENDS Integers
+EXTENDS Integers, ShapeRel
 
 CONSTANTS
   \* @type: Int;
@@ -78,4 +78,12 @@ Next ==
   \/ \E n \in Int : Exact(n)
 
 Spec == Init /\ [][Next]_<<sz, cap, heap>>
+
+\* the closed form (spec/ShapeRel.tla) that the model checker asserts on its transitions and that recorded executions
+\* of the code are validated against: the invariant is inductive under it as well, and it contains Next
+NextClosed == StepClosed(N, MaxSz, "binary", sz, cap, heap, sz', cap', heap')
+NextInClosed == NextClosed      \* action invariant of Spec (checked from IndInit over one step of Next)
+\* the same relation in assignment form, as a next-state relation of its own
+NextClosedA == \E s2 \in Int : \E c2 \in Int : \E h2 \in BOOLEAN :
+                 StepClosed(N, MaxSz, "binary", sz, cap, heap, s2, c2, h2) /\ sz' = s2 /\ cap' = c2 /\ heap' = h2
 =============================================================================
